@@ -50,11 +50,15 @@ func mkfs() *memfs.FS {
 	fs.AddNode("ll", 0o120777, nil, longLink)
 	fs.AddNode("ls", 0o120777, nil, "t")
 	fs.AddNode("le", 0o120777, nil, "")
+	fs.AddFile("xa", nil).Xattrs["user.long"] = pattern(300, 42)
+	fs.AddFile("xb", nil).Xattrs["user.short"] = pattern(5, 77)
+	fs.AddFile("xc", nil).Xattrs["user.empty"] = []byte{}
 	return fs
 }
 
 // Fids per connection: 1 root; 10 L(open RO) 11 S(open RO) 12 E(open RO);
-// 13 w (open RW); 20 many (open) 21 one (open) 22 none (open); 30 ll 31 ls 32 le.
+// 13 w (open RW); 20 many (open) 21 one (open) 22 none (open); 30 ll 31 ls 32 le;
+// 40 41 42 xattr fids (Txattrwalk) on a long, a short and an empty value.
 func setup(s *sess.Sess, family string) {
 	s.Version(8192)
 	s.Attach(1)
@@ -79,6 +83,11 @@ func setup(s *sess.Sess, family string) {
 		bind(30, "ll", -1)
 		bind(31, "ls", -1)
 		bind(32, "le", -1)
+	case "xattrread":
+		for i, fa := range [][2]string{{"xa", "user.long"}, {"xb", "user.short"}, {"xc", "user.empty"}} {
+			bind(uint32(50+i), fa[0], -1)
+			s.Do(rawpeer.Txattrwalk(0, uint32(50+i), uint32(40+i), fa[1]))
+		}
 	}
 }
 
@@ -164,6 +173,32 @@ func build(family, size string, tag uint16, pos int) built {
 			}
 			if got := r.Get("data").([]byte); !bytes.Equal(got, want) {
 				return fmt.Sprintf("Rread carries %d bytes %x..., the backend produced %d bytes %x...", len(got), head(got), len(want), head(want))
+			}
+			return ""
+		}}
+	case "xattrread":
+		// reads through an xattr fid: the SAME fid is read again whenever a
+		// size repeats in the sequence, and the value must still be there
+		fid, count, content := uint32(40), uint32(200), pattern(300, 42)
+		switch size {
+		case "short":
+			fid, count, content = 41, 4, pattern(5, 77)
+		case "empty":
+			fid, count, content = 42, 50, nil
+		}
+		return built{rawpeer.Tread(tag, fid, 0, count), func(fs *memfs.FS, calls []*memfs.Call, r refcodec.Msg) string {
+			if r.Type == refcodec.Rlerror {
+				if size == "empty" {
+					return "" // a read at the end of the value: error or empty reply (DESIGN §4.0, C04 bullet)
+				}
+				return "answered " + r.String()
+			}
+			want := content
+			if len(want) > int(count) {
+				want = want[:count]
+			}
+			if got := r.Get("data").([]byte); !bytes.Equal(got, want) {
+				return fmt.Sprintf("Rread on the xattr fid carries %d bytes %x..., the attribute's value begins %d bytes %x...", len(got), head(got), len(want), head(want))
 			}
 			return ""
 		}}
@@ -392,9 +427,11 @@ func generalize(s string) string {
 }
 
 func run(ctx *fw.Ctx, rep *fw.Report) {
-	rep.Rule = "for each family (Twalk names, Twalkgetattr names, Twrite payload, Tread data, Treaddir entries, Treadlink string, Tsymlink strings): ALL sequences of length 1..3 of same-type messages with each variable-size part in {long, short, empty} x every assignment of the messages to 2 connections of one server process (shared message cache and buffer pools); messages run in lock-step on the real server under the controlled scheduler with sync.Pool in recycling mode: which object a Pool.Get returns (most recent / oldest / fresh) is an explored data choice (<= 2 departures from 'most recent'), the message cache is the real channel; thread schedule: the default one (lock-step leaves no request-level concurrency); plus 12 scenarios 'one read (long/short/at end of file/answered EFAULT after a backend panic), then two reads in flight together' with all thread interleavings explored (DPOR) and pools recycling most-recent-first; oracle: direct expectation per message written from the request (names seen by the backend, payload bytes and offset, reply data == bytes the backend produced, entries, strings)"
-	rep.Assumptions = append(rep.Assumptions, "Pool.Get alternatives bounded to 2 deviations from most-recently-put", "lock-step (one message in flight)", "client-side decoding into caller-provided structs is covered by C01/C17")
-	families := []string{"walk", "walkgetattr", "write", "read", "readdir", "readlink", "symlink"}
+	rep.Rule = "for each family (Twalk names, Twalkgetattr names, Twrite payload, Tread data, Tread through an xattr fid (read again and again), Treaddir entries, Treadlink string, Tsymlink strings): ALL sequences of length 1..3 of same-type messages with each variable-size part in {long, short, empty} x every assignment of the messages to 2 connections of one server process (shared message cache and buffer pools); messages run in lock-step on the real server under the controlled scheduler with sync.Pool in recycling mode: which object a Pool.Get returns (most recent / oldest / fresh) is an explored data choice (<= 2 departures from 'most recent'), the message cache is the real channel; thread schedule: the default one (lock-step leaves no request-level concurrency); plus 12 scenarios 'one read (long/short/at end of file/answered EFAULT after a backend panic), then two reads in flight together' with all thread interleavings explored (DPOR) and pools recycling most-recent-first; oracle: direct expectation per message written from the request (names seen by the backend, payload bytes and offset, reply data == bytes the backend produced, entries, strings); plus the CLIENT side: for each of Readdir, Walk, WalkGetAttr, GetXattr, ListXattrs, Readlink, ReadAt of the real p9.Client, all sequences of 1..3 calls with results in {long, short, empty} x every assignment to two Clients of one process: every returned value equals what the backend holds and is still equal to the copy taken when it was returned after all later calls (no result aliases a recycled object)"
+	rep.Assumptions = append(rep.Assumptions, "Pool.Get alternatives bounded to 2 deviations from most-recently-put", "lock-step (one message in flight)", "client-side decoding of single frames is covered by C01/C17; here only that results stay intact across later calls")
+	// the client side first (free-running, small): results handed to callers stay what they were
+	runRetain(ctx, rep)
+	families := []string{"walk", "walkgetattr", "write", "read", "xattrread", "readdir", "readlink", "symlink"}
 	var scs []*fw.Scenario
 	for _, f := range families {
 		for k := 1; k <= 3; k++ {
